@@ -76,6 +76,32 @@ def run(ctx) -> None:
         seed = ctx.rng.randrange(1 << 30)
         res = P.run_case(ctx.scratch, c01._fix_case(case), lambda sc, seed=seed: S.random_chooser(_r.Random(seed), 0.4), tag="c08r")
         runs.append((case, [("random", seed)], res))
+    # implementation-level statement of "a committer that lost its lock before the commit point reports a retryable
+    # conflict, never success": with the real lease lock, once another committer has taken the lock over, the fence of the
+    # previous holder (its is_held() just before the pointer write) must answer False -- judged on the storage log alone
+    stolen_fences = 0
+    for case, dev, res in runs:
+        if case.get("lock") != "real":
+            continue
+        holder = None
+        lost: Dict[str, bool] = {}
+        for e in res.log:
+            a, op = e["actor"], e["op"]
+            if op == "LockTry" and e["result"] == "ok":
+                if holder is not None and holder != a:
+                    lost[holder] = True          # taken over while the previous holder had not released
+                holder = a
+                lost[a] = False
+            elif op == "LockRel" and holder == a:
+                holder = None
+            elif op == "Fence" and lost.get(a):
+                stolen_fences += 1
+                if e["result"]:
+                    ctx.violation("fence-passed-after-takeover",
+                                  f"{a}'s lock was taken over by another committer, yet its fence (is_held() before the pointer write) answered "
+                                  f"True: a committer that lost its lock goes on to the commit point",
+                                  {"case": c01._case_json(case), "deviations": list(dev), "schedule": res.schedule, "outcomes": res.outcomes})
+    ctx.stats["fences_after_takeover_observed"] = stolen_fences
     ctx.stats["schedules"] = len(runs)
     ctx.stats["cas_conflicts_observed"] = sum(1 for _c, _d, r in runs for e in r.log if e["op"] == "write_file_cas" and e["result"] != "ok")
     if runs:
@@ -87,5 +113,29 @@ def run(ctx) -> None:
         ctx.proof_problems.append("model evaluation failed: " + str(e)[:800])
 
 
+def _fence_after_takeover(res: P.CaseResult) -> List[str]:
+    holder = None
+    lost: Dict[str, bool] = {}
+    out: List[str] = []
+    for e in res.log:
+        a, op = e["actor"], e["op"]
+        if op == "LockTry" and e["result"] == "ok":
+            if holder is not None and holder != a:
+                lost[holder] = True
+            holder = a
+            lost[a] = False
+        elif op == "LockRel" and holder == a:
+            holder = None
+        elif op == "Fence" and lost.get(a) and e["result"]:
+            out.append(a)
+    return out
+
+
 def replay(ctx, payload) -> int:
+    if str(payload.get("key", "")).startswith("fence-passed-after-takeover"):
+        c = payload["case"]
+        res = P.run_case(ctx.scratch, c01._fix_case(c["case"]), c01.dev_chooser({int(i): a for i, a in c.get("deviations", [])}), tag="replay")
+        bad = _fence_after_takeover(res)
+        print("replay:", f"STILL FAILS: fence answered True after a takeover for {bad}" if bad else "passes now")
+        return 1 if bad else 0
     return c01.replay(ctx, payload)
